@@ -475,6 +475,95 @@ def run_targeted(ctx, rng, hid):
         transport.close()
 
 
+def run_between_windows(ctx, rng, hid):
+    """check-then-act: request A is held right before its n-th acquisition of the storage lock (n = 2, 3: after the gate's
+    window, after a first handler window) while request B on the same name runs to completion; then A goes on.  Every
+    request is allowed to take several lock windows — but the two answers and the final state must still be those of
+    one of the two serial orders.  Conditional writes are where a split between check and act shows."""
+    conf = {"auth": {"type": "none"}, "rights": permissive_rights()}
+    sim = davsim.Sim.__new__(davsim.Sim)
+    transport = InProcess(conf)
+    etag_cid = {}
+    storage = transport.app.storage
+    orig_acquire = storage.acquire_lock
+    try:
+        base = ctx.driver.ask1({"m": "dav", "op": "new"})["sid"]
+        lin0 = Linearizer(ctx, [], None, etag_cid, base)
+        cal = ["u", "c1"]
+        setup = [SETUP[0], {"method": "PUT", "path": cal + ["a.ics"], "body": "cal", "objs": [POOL[0]]},
+                 {"method": "PUT", "path": cal + ["b.ics"], "body": "cal", "objs": [POOL[2]]}]
+        store = None
+        etag_a = None
+        for r in setup:
+            m, path, body, env = davsim.Sim.http(sim, r)
+            st, hd, text = transport.send(0, m, path, body, env)
+            observe(r, st, hd, text, etag_cid)
+            if r["path"][-1] == "a.ics":
+                etag_a = hd.get("ETag")
+            store = lin0.model_req(base, r)["store"]
+        same_uid = [o for o in POOL if o["uid"] == POOL[0]["uid"] and o["kind"] == POOL[0]["kind"] and o["cid"] != POOL[0]["cid"]] or [POOL[0]]
+        cond = {"if_match_present": True, "if_match_value": etag_a, "if_match": POOL[0]["cid"]}
+        a_req = rng.choice([dict({"method": "DELETE", "path": cal + ["a.ics"], "as_collection": False}, **cond),
+                            dict({"method": "PUT", "path": cal + ["a.ics"], "body": "cal", "objs": [rng.choice(same_uid)]}, **cond),
+                            {"method": "PUT", "path": cal + ["n.ics"], "body": "cal", "objs": [POOL[4] if POOL[4]["kind"] != "VCARD" else POOL[3]],
+                             "if_none_match_star": True},
+                            {"method": "MOVE", "path": cal + ["a.ics"], "dest": cal + ["m.ics"], "overwrite": False},
+                            {"method": "DELETE", "path": cal + ["a.ics"], "as_collection": False}])
+        b_req = rng.choice([dict({"method": "PUT", "path": cal + ["a.ics"], "body": "cal", "objs": [rng.choice(same_uid)]}, **cond),
+                            {"method": "DELETE", "path": cal + ["a.ics"], "as_collection": False},
+                            {"method": "PUT", "path": cal + ["n.ics"], "body": "cal", "objs": [POOL[4] if POOL[4]["kind"] != "VCARD" else POOL[3]]},
+                            {"method": "MOVE", "path": cal + ["b.ics"], "dest": cal + ["m.ics"], "overwrite": False},
+                            {"method": "MOVE", "path": cal + ["a.ics"], "dest": cal + ["z.ics"], "overwrite": False}])
+        pause_before = rng.choice([2, 3, 3])
+        hist = []
+        state = {"n": 0, "b": None, "a_tid": None}
+
+        def do(ci, r):
+            m, path, body, env = davsim.Sim.http(sim, r)
+            t0 = time.monotonic()
+            st, hd, text = transport.send(ci, m, path, body, env)
+            t1 = time.monotonic()
+            hist.append({"client": ci, "r": r, "t0": t0, "t1": t1, "raw": (st, hd, text)})
+
+        def gated_acquire(mode, user="", *a, **k):
+            if threading.get_ident() == state["a_tid"]:
+                state["n"] += 1
+                if state["n"] == pause_before and state["b"] is None:
+                    state["b"] = threading.Thread(target=do, args=(1, b_req), daemon=True)
+                    state["b"].start()
+                    state["b"].join(timeout=20)          # A holds no lock here: B runs to completion
+            return orig_acquire(mode, user, *a, **k)
+        storage.acquire_lock = gated_acquire
+        state["a_tid"] = threading.get_ident()
+        do(0, a_req)
+        storage.acquire_lock = orig_acquire
+        if state["b"] is not None:
+            state["b"].join(timeout=30)
+        for h in hist:
+            st, hd, text = h.pop("raw")
+            h["obs"] = observe(h["r"], st, hd, text, etag_cid)
+        fin = final_state(transport, sim, etag_cid)
+        case = {"held": a_req["method"] + (" If-Match" if a_req.get("if_match_present") else " If-None-Match:*" if a_req.get("if_none_match_star") else ""),
+                "in_between": b_req["method"], "held_before_lock_acquisition": pause_before, "in_between_ran": state["b"] is not None}
+        ctx.case("between-windows:%s/%s" % (case["held"], b_req["method"]), sample=case, key=[hid], nontrivial=state["b"] is not None)
+        if state["b"] is None:
+            return
+        lin = Linearizer(ctx, hist, fin, etag_cid, base)
+        order = lin.search(base, json.dumps(store, sort_keys=True), frozenset())
+        if order is None:
+            replay = {"schedule": "request A held before its lock acquisition #%d while request B runs completely" % pause_before,
+                      "history": [{"client": h["client"], "request": {k: v for k, v in h["r"].items() if k != "objs"}, "observed": h["obs"]} for h in hist],
+                      "final": fin}
+            if sequential_explained(ctx, sorted(hist, key=lambda x: x["t1"]), setup):
+                ctx.violation("two requests on one name: answers %s and the final state are those of neither serial order (a check in one lock "
+                              "window, the act in another)" % [h["obs"]["status"] for h in hist], replay)
+            else:
+                ctx.disagree("the sequential model does not explain these requests even one at a time", replay, "observed", "model")
+    finally:
+        storage.acquire_lock = orig_acquire
+        transport.close()
+
+
 def witness_f6(ctx):
     """first login = three lock windows; a DELETE of the home between creation and handler"""
     from radicale import app as rapp
@@ -530,4 +619,6 @@ def run(ctx):
         run_history(ctx, rng, ("p", h), "processes", rng.choice([2, 4, 6]), rng.randint(2, 3), rng.choice([50, 300]))
     for h in range(ctx.n(25, 600)):
         run_targeted(ctx, rng, ("x", h))
+    for h in range(ctx.n(40, 800)):
+        run_between_windows(ctx, rng, ("w", h))
     witness_f6(ctx)
